@@ -19,6 +19,7 @@ Process level    : `vdrive aggsig` stops real pandora processes (vpandora = real
 import concurrent.futures
 import json
 import os
+import re
 import shutil
 import subprocess
 import time
@@ -92,7 +93,11 @@ def build():
 def design(thorough):
     pos = [("AggregatorMC", "Aggregator_exh.cfg"), ("AggregatorMC", "Aggregator_exh_block.cfg"),
            ("AggregatorMC", "Aggregator_exh_q2.cfg"), ("AggregatorMC", "Aggregator_exh_block_q2.cfg"),
-           ("ShutdownMC", "Shutdown_exh.cfg"), ("ShutdownMC", "Shutdown_exh_drop.cfg"),
+           # CLI shutdown: signal before signal.Notify, untrapped signals, second signal, the timers, slow / blocking
+           # sink (back-pressure), instances parked in a blocking Report: _fast = 2x2 with an instantaneous sink,
+           # _slow_small = 2x1 with two-step writes
+           ("ShutdownMC", "Shutdown_exh_fast.cfg"), ("ShutdownMC", "Shutdown_exh_slow_small.cfg"),
+           ("ShutdownMC", "Shutdown_exh_drop_slow_small.cfg"),
            # engine await loop composed with the aggregator (PoolAgg.tla)
            ("PoolAggMC", "PoolAgg_exh_nofault.cfg"), ("PoolAggMC", "PoolAgg_exh_schedend.cfg"),
            ("PoolAggMC", "PoolAgg_exh_small.cfg"),
@@ -104,8 +109,13 @@ def design(thorough):
            ("AggregatorMC", "Aggregator_exh_fault_block.cfg"), ("AggregatorMC", "Aggregator_exh_fault_drop.cfg"),
            ("AggregatorMC", "Aggregator_exh_fault_drop_q2.cfg")]
     if thorough:
-        pos += [("AggregatorMC", "Aggregator_exh_big.cfg"), ("ShutdownMC", "Shutdown_exh_q2.cfg"),
+        pos += [("AggregatorMC", "Aggregator_exh_big.cfg"), ("ShutdownMC", "Shutdown_exh.cfg"), ("ShutdownMC", "Shutdown_exh_drop.cfg"),
+                ("ShutdownMC", "Shutdown_exh_drop_fast.cfg"), ("ShutdownMC", "Shutdown_exh_q2.cfg"),
                 ("ShutdownMC", "Shutdown_exh_big.cfg"),
+                # once told to stop the process ends: thanks to the timers also with a sink that blocks for ever or an
+                # instance parked for ever in phout's Report; jsonlines on a working sink needs no timer
+                ("ShutdownMC", "Shutdown_live.cfg"), ("ShutdownMC", "Shutdown_live_drop.cfg"),
+                ("ShutdownMC", "Shutdown_live_drop_fastsink_notimeout.cfg"),
                 ("PoolAggMC", "PoolAgg_exh.cfg"), ("PoolAggMC", "PoolAgg_exh_block.cfg"),
                 ("PoolAggMC", "PoolAgg_exh_small2.cfg"), ("PoolAggMC", "PoolAgg_live_nofault.cfg"),
                 ("PoolAggMC", "PoolAgg_live.cfg"), ("PoolAggMC", "PoolAgg_exh_big.cfg")]
@@ -117,17 +127,30 @@ def design(thorough):
            ("ShutdownMC", "Shutdown_neg_nowait.cfg"), ("ShutdownMC", "Shutdown_neg_reach.cfg"),
            # a first signal while the tasks of a FAILED run are awaited ends the process (seed C06-6)
            ("ShutdownMC", "Shutdown_neg_errsig.cfg"),
+           # every exempt cause of a forced exit really loses data (the list in ExitComplete is minimal) ...
+           ("ShutdownMC", "Shutdown_neg_early.cfg"), ("ShutdownMC", "Shutdown_neg_untrapped.cfg"),
+           ("ShutdownMC", "Shutdown_neg_second.cfg"), ("ShutdownMC", "Shutdown_neg_timeout.cfg"),
+           # ... an unforced complete exit of a run whose instance was parked by back-pressure at the signal is reachable
+           ("ShutdownMC", "Shutdown_neg_bpreach.cfg"),
+           # without the timers a stopped process may never end (instance parked for ever in a blocking Report)
+           ("ShutdownMC", "Shutdown_neg_live_notimeout.cfg"),
            ("PoolAggMC", "PoolAgg_neg_early.cfg"),
            # out of ammo during the start-up calls runCancel() instead of instanceStartCancel() (seed C06-8)
            ("PoolAggMC", "PoolAgg_neg_ooa.cfg"), ("PoolAggMC", "PoolAgg_neg_ooa_start.cfg"),
            ("SinkMC", "Sink_neg_samefile.cfg"), ("SinkMC", "Sink_neg_append_midline.cfg"), ("SinkMC", "Sink_neg_latetrunc.cfg")]
     if thorough:
-        neg += [("PoolAggMC", "PoolAgg_neg_reach.cfg"), ("PoolAggMC", "PoolAgg_neg_early_complete.cfg"),
+        neg += [("ShutdownMC", "Shutdown_neg_live_notimeout_slow.cfg"), ("PoolAggMC", "PoolAgg_neg_reach.cfg"), ("PoolAggMC", "PoolAgg_neg_early_complete.cfg"),
                 ("PoolAggMC", "PoolAgg_neg_ooa_complete.cfg")]
     vlib.spec_copy()
 
     def one(mc):
-        return mc, vlib.tlc(mc[0], mc[1], workers=2, heap="3g", timeout=3000, deadlock=False)
+        r = vlib.tlc(mc[0], mc[1], workers=2, heap="3g", timeout=3000, deadlock=False)
+        # vlib's parser knows 'Temporal properties were violated'; this TLC prints 'Temporal property X was violated'
+        # (additive helper kept here because lib/vlib.py is shared)
+        m = re.search(r"Temporal property (\S+) was violated", r.out)
+        if m and r.kind in ("tlc-error", ""):
+            r.error, r.violation, r.kind, r.what = False, True, "temporal", m.group(1)
+        return mc, r
 
     states = trans = 0
     per = {}
@@ -143,8 +166,8 @@ def design(thorough):
                         "violated": r.what if r.violation else None}
     if thorough:
         # every action of the design modules must have fired (an action that never fires is a modelling hole)
-        import re
-        for mod, cfg in (("AggregatorMC", "Aggregator_exh.cfg"), ("ShutdownMC", "Shutdown_exh_drop.cfg"),
+        for mod, cfg in (("AggregatorMC", "Aggregator_exh.cfg"), ("AggregatorMC", "Aggregator_exh_fault_block.cfg"),
+                         ("ShutdownMC", "Shutdown_exh_drop.cfg"), ("ShutdownMC", "Shutdown_exh_slow_small.cfg"),
                          ("PoolAggMC", "PoolAgg_exh_small2.cfg")):
             r = vlib.tlc(mod, cfg, workers=4, heap="4g", timeout=3000, deadlock=False, coverage=True)
             vlib.tlc_must_pass(r, cfg + " (coverage)")
